@@ -2,6 +2,9 @@ mod exec;
 mod exec_l1;
 mod exec_l2;
 mod exec_l3;
+mod exec_l4;
+mod exec_pb;
+mod gen_pb;
 mod faultdb;
 mod eval;
 mod gen_l1;
